@@ -444,6 +444,15 @@ impl Prop for C03 {
                 out.push(Case { default: d.into(), occ: vec![o.clone()], auto: None, ext_implied: false });
             }
         }
+        for kind in ["components-of", "selection", "selection-component"] {
+            for dl in ["EXPLICIT", "IMPLICIT", "AUTOMATIC"] {
+                for du in ["EXPLICIT", "IMPLICIT"] {
+                    for order in ["lib-first", "user-first"] {
+                        out.push(Case { default: du.into(), occ: vec![], auto: Some((format!("XEXPAND-{kind}|{dl}|{du}|Zz-Lib|{order}"), 0, false)), ext_implied: false });
+                    }
+                }
+            }
+        }
         for d in ["EXPLICIT", "IMPLICIT", "AUTOMATIC"] {
             for list in ["SEQOF", "SETOF"] {
                 for elem in ["INTEGER", "CHOICE", "SEQUENCE"] {
@@ -496,6 +505,11 @@ impl Prop for C03 {
         out
     }
     fn check(&self, c: &Case) -> CaseResult {
+        if let Some((kind, _, _)) = c.auto.as_ref().filter(|a| a.0.starts_with("XEXPAND-")) {
+            // tags copied into another module by COMPONENTS OF / a selection type keep the mode their own module gives
+            // them (the same cases as C12's expansion-across-modules family, judged here for the tagging property)
+            return crate::props::c12::check_xexpand(kind.trim_start_matches("XEXPAND-"));
+        }
         let src = text(c);
         let o = compile1(&src);
         let gen = match &o {
